@@ -18,7 +18,7 @@
     atomics and memory-model effects are outside the model.
 
     Statements only; proofs are in Proofs/LocksProofs.v. *)
-From VLS Require Import Model.Locks Model.LocksOld Proofs.LocksProofs Gen.LockProgs.
+From VLS Require Import Model.Locks Model.LocksOld Model.Atomics Proofs.LocksProofs Proofs.AtomicsProofs Gen.LockProgs.
 
 (** The obligation that depends on the code: the searched rank orders every recorded program
     (each acquires only above what it holds, releases only what it holds, ends empty-handed).
@@ -94,6 +94,47 @@ Print Assumptions C20_sections_at_quiescence.
 Theorem C20_updates_single_section : forallb (single_section slot_class) update_progs = true.
 Proof. vm_compute. reflexivity. Qed.
 Print Assumptions C20_updates_single_section.
+
+(** Lock-free shared state.  The key manager's counters (generated channel ids, entropy, base-point
+    indices) are used before or without any mutex, so the lock programs say nothing about them.
+    [counter_progs] (generated from the source on every run) lists, per function, the atomic
+    operations on each Atomic* field; the obligation: every write is ONE read-modify-write event
+    (no separate store).  A load followed by a store makes it fail. *)
+Theorem C20_counters_rmw : forallb (fun p => no_store (snd p)) counter_progs = true.
+Proof. vm_compute. reflexivity. Qed.
+Print Assumptions C20_counters_rmw.
+
+(** ... and then, for any number of threads, each performing any sequence of the recorded counter
+    uses, under EVERY interleaving of their atomic events, the values handed out (child indices,
+    hence generated channel ids / entropy) are pairwise distinct.  Partial: one counter at a time,
+    sequentially consistent interleaving of the atomic events (the code uses AcqRel). *)
+Theorem C20_generated_ids_distinct_partial :
+  forall (c0 : N) (uses : list (list aop)),
+    Forall (fun u => exists ps, Forall (fun p => In p (map snd counter_progs)) ps /\ u = concat ps) uses ->
+    forall sched s', arun (ainit c0 uses) sched = Some s' -> NoDup (handed s').
+Proof.
+  intros c0 uses Hu sched s' H.
+  apply (rmw_values_distinct c0 uses) with (sched := sched); [|exact H].
+  pose proof C20_counters_rmw as R. rewrite forallb_forall in R.
+  apply Forall_forall. intros u Iu. rewrite Forall_forall in Hu. destruct (Hu u Iu) as [ps [Hps ->]].
+  clear - Hps R. induction Hps as [|p ps Hp _ IH]; [reflexivity|].
+  cbn [concat]. unfold no_store in *. rewrite forallb_app, IH, andb_true_r.
+  apply in_map_iff in Hp. destruct Hp as [[nm q] [<- Hq]]. exact (R _ Hq).
+Qed.
+Print Assumptions C20_generated_ids_distinct_partial.
+
+(** the load-then-store variant (seeded change C20g) hands the same value to two threads *)
+Example C20_load_store_refuted :
+  exists sched s', arun (ainit 0 [[Ld; St]; [Ld; St]]) sched = Some s' /\ ~ NoDup (handed s').
+Proof.
+  exists [0; 1; 0; 1]%nat. eexists. split; [vm_compute; reflexivity|].
+  cbn [handed]. intros H. inversion H as [|x l N _]. apply N. left. reflexivity.
+Qed.
+
+Example C20_counters_nonvacuous :
+  counter_progs <> [] /\
+  exists s', arun (ainit 5 [[Rmw]; [Rmw]; [Rmw]]) [2; 0; 1]%nat = Some s' /\ handed s' = [7; 6; 5] /\ cnt s' = 8.
+Proof. split; [vm_compute; discriminate|]. eexists. vm_compute. repeat split. Qed.
 
 (** the request kinds taken out of [progs] because they contain an inversion listed in
     KNOWN_FINDINGS.json really do deadlock in the model (empty when nothing is listed): each
